@@ -45,6 +45,12 @@ CONFIGS = {
     "m5-f135": (135, 600, 0, 16000, 30, 0),      # window 5: open > 3, close < 2   (from 4.5: > 2)
     "m12-f350": (350, 500, 2, 16000, 30, 0),     # window 12: open > 6, close < 6  (from 11.67: > 5)
     "m4-f130": (130, 700, 0, 16000, 30, 0),      # window 4 (from 4.33): open > 2  (from 4.33: > 3)
+    # ratios BELOW one half: the closing threshold lies above the opening one, so a segment a few speech frames opened
+    # must close again at once unless the window has filled up with speech meanwhile
+    "m4-r25": (120, 250, 0, 16000, 30, 0),       # window 4: open > 1, close < 3
+    "m5-r30": (150, 300, 1, 16000, 30, 0),       # window 5: open > 1, close < 4
+    "m10-r30": (300, 300, 0, 16000, 30, 0),      # window 10: open > 3, close < 7
+    "m15-r20-32k": (450, 200, 2, 32000, 30, 0),  # 960-sample frames, window 15: open > 3, close < 12
 }
 
 
@@ -556,7 +562,8 @@ def run(ctx):
 
     # 2d. seeded run-structured sequences on larger windows
     n_rand = 40 if quick else 400
-    big = ["default", "m6-44k", "m14-11k", "m20-r85", "m7-r70", "m16-r50", "m5-48k30", "m4-r50", "m12-f350", "m4-f130"]
+    big = ["default", "m6-44k", "m14-11k", "m20-r85", "m7-r70", "m16-r50", "m5-48k30", "m4-r50", "m12-f350", "m4-f130", "m10-r30", "m15-r20-32k",
+           "m5-r30"]
     for i in range(n_rand):
         cfg = big[i % len(big)]
         m = thresholds_exact(CONFIGS[cfg][0], CONFIGS[cfg][1], fsize_of(cfg), CONFIGS[cfg][3])[0]
@@ -566,8 +573,8 @@ def run(ctx):
 
     # 3. real classifier on real audio
     reals = []
-    real_cfgs = ["default", "m7-r70", "m20-r85", "m14-11k", "m6-44k", "m4-8k10", "m5-32k20", "m5-48k30", "m4-r75",
-                 "m3-r70", "m16-r50", "m4-r50"]
+    real_cfgs = ["default", "m7-r70", "m10-r30", "m20-r85", "m14-11k", "m6-44k", "m4-8k10", "m15-r20-32k", "m5-32k20", "m5-48k30",
+                 "m4-r75", "m3-r70", "m16-r50", "m4-r50"]
     mixes = [["goforward"], ["hush", "goforward", "hush"], ["goforward", "noise", "goforward_fr"],
              ["vadtest", "hush", "vadtest"], ["noise"], ["hush"], ["goforward_fr", "goforward"]]
     for ci, cfg in enumerate(real_cfgs if not quick else real_cfgs[:8]):
@@ -586,9 +593,9 @@ def run(ctx):
 
     # 2b. all decision sequences up to a length on small windows
     lens = {"m3-r70": 10, "m3-r50": 10, "m3-r60": 9, "m4-r75": 10, "m4-r50": 10, "m4-8k10": 9, "m5-32k20": 10,
-            "m5-48k30": 9, "m3-f75": 9, "m4-f105": 9, "m5-f135": 8, "m4-f130": 8} if quick else \
+            "m5-48k30": 9, "m3-f75": 9, "m4-f105": 9, "m5-f135": 8, "m4-f130": 8, "m4-r25": 9, "m5-r30": 9} if quick else \
            {"m3-r70": 13, "m3-r50": 13, "m3-r60": 12, "m4-r75": 13, "m4-r50": 13, "m4-8k10": 12, "m5-32k20": 13,
-            "m5-48k30": 12, "m3-f75": 12, "m4-f105": 12, "m5-f135": 11, "m4-f130": 11}
+            "m5-48k30": 12, "m3-f75": 12, "m4-f105": 12, "m5-f135": 11, "m4-f130": 11, "m4-r25": 12, "m5-r30": 12}
     if quick:
         units.append(("exh", None, lens))
     else:
